@@ -147,6 +147,7 @@ theorem load_ne_oof_aux (g : Graph) (tol : Bool) :
       split
       · simp
       · simp
+      · simp
       · rename_i tag fields hg
         have hlt : k < g.length := getElem?_some_lt g k _ hg
         apply fold_ne g tol (load g tol fuel (k :: chain)) .oof (fieldOutcome_ne_oof g tol) fields (.ok ()) (by simp)
@@ -443,6 +444,7 @@ theorem load_ne_oof_depth (g : Graph) (tol : Bool) :
       · simp
       rename_i hlen
       split
+      · simp
       · simp
       · simp
       · rename_i tag fields hg
